@@ -205,7 +205,9 @@ pub fn exec(case: &Value) -> Vec<Value> {
     let kind = get_str(case, "kind").to_string();
     let special = special_of(case);
     let mut int = CpInt { map: HashMap::new() };
-    let alpha = chars_dedup();
+    // the character tokenizer's vocabulary: the caller's own characters (`vocab`), or the built-in alphabet
+    let own: Vec<char> = get_str(case, "vocab").chars().fold(vec![], |mut v, c| { if !v.contains(&c) { v.push(c); } v });
+    let alpha = if kind == "char" && !own.is_empty() { own.clone() } else { chars_dedup() };
     let g = get_bool(case, "g");
     // texts: given directly, or as slot sequences enumerated by TLC (Gen_Tok)
     let mut texts: Vec<String> = case["texts"].as_array().map(|a| a.iter().map(|x| x.as_str().unwrap().to_string()).collect()).unwrap_or_default();
@@ -253,9 +255,17 @@ pub fn exec(case: &Value) -> Vec<Value> {
             guard(|| ByteTokenizer::new(cfg, special.clone()).map(|t| Box::new(t) as Box<dyn Tokenize>))
         }
         "char" => {
-            rec["chars"] = Value::Array(alpha.iter().map(|c| bytes_json(c.to_string().as_bytes())).collect());
             let cfg = CharTokenizerConfig { use_graphemes: g, unk_token: get_str(case, "unk").to_string() };
-            guard(|| CharTokenizer::new(cfg, special.clone()).map(|t| Box::new(t) as Box<dyn Tokenize>))
+            // `vocab`: a character tokenizer over the caller's own characters (multi-byte ones among them) instead of the
+            // built-in ASCII alphabet
+            if own.is_empty() {
+                rec["chars"] = Value::Array(alpha.iter().map(|c| bytes_json(c.to_string().as_bytes())).collect());
+                guard(|| CharTokenizer::new(cfg, special.clone()).map(|t| Box::new(t) as Box<dyn Tokenize>))
+            } else {
+                rec["chars"] = Value::Array(own.iter().map(|c| bytes_json(c.to_string().as_bytes())).collect());
+                let unk = cfg.unk_token.clone();
+                guard(|| CharTokenizer::new_vocab_tokenizer(own.clone(), unk, special.clone(), cfg).map(|t| Box::new(t) as Box<dyn Tokenize>))
+            }
         }
         _ => {
             let tab: Vec<Vec<u8>> = case["tab"].as_array().unwrap().iter()
@@ -475,7 +485,8 @@ pub fn gen(seed: u64, n: usize) -> Vec<Value> {
             1 => {
                 let texts: Vec<String> = (0..12).map(|_| rand_text(&mut rng, &specials, 14)).collect();
                 let unk = ["<unk>", "<u>", "<oov>"][rng.random_range(0..3)];
-                out.push(json!({"kind": "char", "special": special, "g": g, "texts": texts, "unk": unk}));
+                let vocab = if rng.random_bool(0.4) { ["aäß€語𝄞 ", "ba", "é字😀x"][rng.random_range(0..3)] } else { "" };
+                out.push(json!({"kind": "char", "special": special, "g": g, "texts": texts, "unk": unk, "vocab": vocab}));
             }
             _ => {
                 // BPE: a random well-formed table over a small alphabet and words over that alphabet
